@@ -19,7 +19,7 @@ def run(v, tier, seed, replay):
         cases = [rp["program"]]
         specs = [proggen.spec_of(cases[0])]
     else:
-        gens = [proggen.make(r.fork(), "tree", {"adapters": i % 4 == 0, "cycle_density": 1 + i % 3, "threads": 1 + i % 3, "ops": 20 + r.below(80), "open_at_close": i % 2 == 1, "sleeps": i % 3 != 0, "prebuilt": i % 2 == 0}) for i in range(n)]
+        gens = [proggen.make(r.fork(), "tree", {"adapters": i % 4 == 0, "cycle_density": 1 + i % 3, "threads": 1 + i % 3, "ops": 20 + r.below(80), "open_at_close": i % 2 == 1, "sleeps": i % 3 != 0, "prebuilt": i % 2 == 0, "re_names": i % 3 == 1}) for i in range(n)]
         cases = [g.lines for g in gens]
         specs = [g.s for g in gens]
         # unit boundaries of the duration arithmetic: a local span and a thread-safe span open for more than
@@ -36,6 +36,12 @@ def run(v, tier, seed, replay):
                "0 child1 c 63 r", "0 sleep 400", "0 addEventPre c e3 6533 none", "0 drop c", "0 close", "0 drop r", "0 cycle", "0 stats"]
         cases.append(pre)
         specs.append(proggen.spec_of(pre))
+        # a span name whose conversion (`impl Into<Cow<'static, str>>`, user code) records a local span itself: that span
+        # is an earlier sibling of the named span and ends before the named span begins
+        ren = ["0 spawn", "0 setReporter 0", "0 root r 72 1 0 1", "0 scope r", "0 localEnter 6f", "0 sleep 300", "0 localEnterRe 6e", "0 sleep 300", "0 close",
+               "0 childLocalRe c 63", "0 sleep 300", "0 drop c", "0 close", "0 close", "0 drop r", "0 cycle", "0 stats"]
+        cases.append(ren)
+        specs.append(proggen.spec_of(ren))
     impl = seqrun.run_impl(cases, env={"FH_TIMES": "1"}) if ok else None
     model = seqrun.run_model(cases)
     fails, mism, nontriv, recs = [], [], set(), 0
